@@ -57,6 +57,33 @@ func (w *world) fresh(off int64) *hello {
 	return h
 }
 
+// freshStamp builds a never-seen hello with the given hour stamp.
+func (w *world) freshStamp(st int64) *hello {
+	key := ref.NewKeypair(w.rr)
+	pad := make([]byte, ref.ClientMinPad+w.rng.IntN(500))
+	io.ReadFull(w.rr, pad)
+	h := &hello{h: ref.BuildClientHello(w.b.Ref, key, pad, strconv.FormatInt(st, 10)), stamp: st}
+	w.hellos = append(w.hellos, h)
+	return h
+}
+
+// submitHeld opens the connection now but delivers h only after gap (inside
+// the server's handshake timeout).  The hour that counts is the one of the
+// server's clock when the handshake is presented, not when the connection
+// was accepted.
+func (w *world) submitHeld(h *hello, kind string, gap time.Duration) {
+	H := time.Now().Add(gap).Unix() / 3600
+	valid := h.stamp >= H-1 && h.stamp <= H+1
+	expect := valid && !h.seen
+	posInHour := time.Now().Unix() % 3600
+	res := o4.RunProbe(w.c, w.sf, o4.ProbeScript{Segments: [][]byte{h.h.Bytes}, Gaps: []time.Duration{gap}, CloseAfter: -1})
+	w.trace = append(w.trace, fmt.Sprintf("%s(stamp=H%+d,seen=%v)accepted@%02d:%02d,presented+%v->%v", kind, h.stamp-H, h.seen, posInHour/60, posInHour%60, gap, res.Accepted))
+	w.judge(h, kind, H, valid, expect, res)
+	if valid {
+		h.seen = true
+	}
+}
+
 // submit presents h once and judges the outcome against the model.
 func (w *world) submit(h *hello, kind string) {
 	H := nowHour()
@@ -242,7 +269,7 @@ func position(sec int64) {
 func TestCheck(t *testing.T) {
 	r := mon.Start(t, "C04")
 	defer r.Finish()
-	r.Note("rule", "histories against one server factory each, in virtual time: (a) complete grid of hour offsets -3..+3 x clock positions {first second, middle, last second of the hour} for fresh hellos, each followed by a replay; (b) the TTL scenario (hello stamped H+1 accepted in the first second of hour H, replayed 2h59m later while still inside its window); (c) PRNG histories of <=12 operations over {fresh(offset), replay(earlier hello), advance clock by one of {0,1s,59m,61m,2h,2h59m,3h1m}, k=2..16 simultaneous submissions of one hello}; every presentation is the byte-exact complete hello; lockstep comparison with the sequential set model. Non-trivial = a history with at least one acceptance and one rejection; distinct = distinct history trace.")
+	r.Note("rule", "histories against one server factory each, in virtual time: (a) complete grid of hour offsets -3..+3 x clock positions {first second, middle, last second of the hour} for fresh hellos, each followed by a replay; (a2) the same offsets for connections accepted at xx:59:50 whose hello is presented 11, 20 or 29 s later, i.e. in the next hour (offsets relative to the hour at presentation); (b) the TTL scenario (hello stamped H+1 accepted in the first second of hour H, replayed 2h59m later while still inside its window); (c) PRNG histories of <=12 operations over {fresh(offset), replay(earlier hello), advance clock by one of {0,1s,59m,61m,2h,2h59m,3h1m}, k=2..16 simultaneous submissions of one hello}; every presentation is the byte-exact complete hello; lockstep comparison with the sequential set model. Non-trivial = a history with at least one acceptance and one rejection; distinct = distinct history trace.")
 	dir := o4.StateDir("c04")
 
 	// (a) offsets x clock positions
@@ -269,6 +296,26 @@ func TestCheck(t *testing.T) {
 			}
 			r.Distinct("nontrivial", fmt.Sprint(w.trace))
 			r.Sample(map[string]any{"history": w.trace})
+		})
+	}
+	// (a2) connections accepted shortly before the top of the hour whose hello
+	// is presented shortly after it: offsets are relative to the server's hour
+	// at presentation
+	for gi, gap := range []time.Duration{11 * time.Second, 20 * time.Second, 29 * time.Second} {
+		gi, gap := gi, gap
+		r.Bubble(fmt.Sprintf("accepted-before-boundary/%d", gi), func(c *mon.Case) {
+			w := newWorld(c, r, dir, r.Sub("abb", gi))
+			if w == nil {
+				return
+			}
+			for off := int64(-3); off <= 3; off++ {
+				position(3590)
+				h := w.freshStamp(nowHour() + 1 + off)
+				w.submitHeld(h, "fresh-accepted-before-boundary", gap)
+				w.submit(h, "replay")
+				r.Count("accepted_before_boundary_presentations", 1)
+			}
+			r.Distinct("nontrivial", fmt.Sprint(w.trace))
 		})
 	}
 	// (b) TTL scenario
